@@ -15,6 +15,8 @@ Streams
           saved one (also the empty set); crash injection on the transition to the empty set.
   cachehist histories of update_map / delete_map / restart over two pairing ids through CharacteristicCacheFile and
           through AbstractPairing.restore_accessories_state; after every restart each id holds what was written last.
+  jcodec  the concrete JSON codec (Model/PersistJson.v): real files = jprint of their lexical tree, jparse = tree,
+          every / every structural strict prefix is rejected by the model AND by the real load_data, corruptions.
   emap    entity maps (random well-formed + tests/fixtures) through Accessories.from_list /
           serialize / JSON / from_list, against the record model (Model/PersistRec.v).
 Oracle: after any crash point the loaded pairing data equals the old or the new data (or nothing
@@ -380,7 +382,8 @@ def judge_crash_case(site, res, have_old, cov, viols, first_violation, stats, ca
                                    f"{ {inv.get(k, k): v[:40] for k, v in real_named.items()} } but the model predicts "
                                    f"{ {inv.get(k, k): v[:40] for k, v in mlist.items()} }", False,
                                    broken="correspondence Model/Persist.v <-> file operations of " + site, **replay))
-        elif mcls in model_to_load and model_to_load[mcls] != pt["cls"]:
+        elif mcls in model_to_load and model_to_load[mcls] != pt["cls"] and not (
+                res.get("old_equals_new") and {model_to_load[mcls], pt["cls"]} <= {"old", "new"}):
             viols.append(violation(f"{site}:model-mismatch:load", f"{site}: loader sees {pt['cls']} where the model "
                                    f"(class {mcls}) predicts {model_to_load[mcls]}", False,
                                    broken="codec hypotheses (parse.print / strict prefixes) or loader model", **replay))
@@ -1417,6 +1420,226 @@ def stream_cachehist(ctx, drv, cov, viols, root, r):
     cov.extra["cache_history_stream"] = stats
 
 
+# ---------------------------------------------------------------- stream: the concrete JSON codec (Model/PersistJson.v)
+def tree_tokens(t, out=None):
+    top = out is None
+    out = [] if top else out
+    if t is None:
+        out.append("n")
+    elif t is True:
+        out.append("t")
+    elif t is False:
+        out.append("f")
+    elif t[0] == "N":
+        out.append("N" + hx(t[1]))
+    elif t[0] == "S":
+        out.append("S" + hx(t[1]))
+    elif t[0] == "A":
+        out.append(f"A{len(t[1])}")
+        for x in t[1]:
+            tree_tokens(x, out)
+    else:
+        out.append(f"O{len(t[1])}")
+        for k, x in t[1]:
+            out.append("S" + hx(k))
+            tree_tokens(x, out)
+    return " ".join(out) if top else None
+
+
+def structural_cuts(b: bytes, r, budget):
+    """Prefix lengths that end at structurally interesting places: right after every bracket, comma, colon, quote,
+    backslash, inside \\u escapes and multi-byte characters, inside literals and numbers; sampled down to budget."""
+    cuts = set(range(0, min(len(b), 24))) | set(range(max(0, len(b) - 24), len(b)))
+    for i, c in enumerate(b):
+        if c in b'{}[],:"\\' or c >= 0x80 or c in b"-.eE" or (i and b[i - 1] in b'{}[],:"\\'):
+            cuts.add(i)
+            cuts.add(i + 1)
+    cuts = sorted(k for k in cuts if 0 <= k < len(b))
+    if len(cuts) > budget:
+        keep = set(cuts[:40]) | set(cuts[-40:]) | set(r.sample(cuts, budget - 80))
+        cuts = sorted(keep)
+    return cuts
+
+
+def stream_jcodec(ctx, drv, cov, viols, root, r):
+    """The printer / parser of Model/PersistJson.v against the real writers and readers:
+    (a) the bytes written by the real save_data (indented) and the real CharacteristicCacheFile (compact) equal
+        jprint of their lexical tree (independent lexer harness/ref/c20_jsonlex.py), and jparse gives the tree back;
+    (b) every (small documents) / every structurally interesting (large documents) strict prefix: jparse = None, and the
+        real loader does what the theorems say - load_data raises ConfigLoadingError and loads NOTHING, the cache is empty;
+    (c) corruptions: whenever the model parser accepts, the real parser accepts with the same tree."""
+    import pathlib
+
+    from aiohomekit import hkjson
+    from aiohomekit.characteristic_cache import CharacteristicCacheFile
+    from ref.c20_jsonlex import LexError, lex
+    import re
+    re_bad_u = re.compile(rb"\\u(?![0-9a-fA-F]{4})")      # \u not followed by four hex digits: outside the lexical model
+    tier = ctx["tier"]
+    stats = dict(pairing_docs=0, cache_docs=0, printer_equal=0, parser_equal=0, prefixes=0, prefixes_model_none=0,
+                 pairing_prefixes_loaded_by_real_loader=0, corruptions=0, model_accepts=0, real_more_lenient=0,
+                 bytes_total=0, max_doc=0, not_wf=0)
+    seen = set()
+    docs = []          # (kind, ind, bytes)
+    ppath = os.path.join(root, "pairing.json")
+    cpath = os.path.join(root, "charmap.json")
+    n_pair = 12 if tier == "quick" else 150
+    for i in range(n_pair):
+        reset_dir(root, {})
+        ps = gen_pairing_set(r, None, ["IP", "BLE", "CoAP"] if i == 0 else None) if i % 6 else {}
+        controller_with(ps).save_data(ppath)
+        if not os.path.exists(ppath):
+            stats["file_missing_after_write"] = stats.get("file_missing_after_write", 0) + 1   # judged by the sequence stream
+            continue
+        docs.append(("pairing", 1, open(ppath, "rb").read(), ps))
+    fixtures = sorted(glob.glob(os.path.join(ctx["repo"], "tests", "fixtures", "*.json")))
+    for i in range(10 if tier == "quick" else 120):
+        reset_dir(root, {})
+        c = CharacteristicCacheFile(pathlib.Path(cpath))
+        if i < (3 if tier == "quick" else len(fixtures)):
+            c.async_create_or_update_map("aa:bb:cc:dd:ee:ff", 3, json.load(open(fixtures[i % len(fixtures)], encoding="utf-8")),
+                                         "00" * 32, 7)
+        elif i % 7 == 3:
+            c.async_create_or_update_map("x", 1, [], None, None)
+            c.async_delete_map("x")
+        else:
+            for hkid, e in cache_doc(r, r.choice([1, 2]), small=(i % 3 != 0)).items():
+                c.async_create_or_update_map(hkid, e["config_num"], e["accessories"], e["broadcast_key"], e["state_num"])
+        if not os.path.exists(cpath):
+            stats["file_missing_after_write"] = stats.get("file_missing_after_write", 0) + 1   # judged by the history stream
+            continue
+        docs.append(("cache", 0, open(cpath, "rb").read(), None))
+    # (a) printer and parser on the complete documents
+    trees = []
+    printer_ok = set()
+    for kind, ind, b, _ in docs:
+        trees.append(lex(b))
+    pr = drv.batch([f"jp {ind} " + tree_tokens(t) for (kind, ind, b, _), t in zip(docs, trees)])
+    pa = drv.batch(["jq " + hx(b) for kind, ind, b, _ in docs])
+    for (kind, ind, b, ps), t, a1, a2 in zip(docs, trees, pr, pa):
+        stats[kind + "_docs"] += 1
+        stats["bytes_total"] += len(b)
+        stats["max_doc"] = max(stats["max_doc"], len(b))
+        cov.case("jdoc|" + hx(b)[:6000], True,
+                 sample=dict(stream="json-codec", kind=kind, bytes=len(b), head=b[:60].decode("utf-8", "replace"))
+                 if stats[kind + "_docs"] % 7 == 1 else None, jcodec_kind=kind, jcodec_size=min(len(b) // 1000, 40))
+        if a1.startswith("notwf"):
+            stats["not_wf"] += 1
+        if a1.split(" ")[1] == hx(b):
+            stats["printer_equal"] += 1
+            printer_ok.add(id(b))
+        else:
+            got = unhx_safe(a1.split(" ")[1])
+            k = next((i for i in range(min(len(got), len(b))) if got[i] != b[i]), min(len(got), len(b)))
+            key = f"jcodec:model-mismatch:printer:{kind}"
+            if key not in seen:
+                seen.add(key)
+                viols.append(violation(key, f"the {kind} file written by the real code is not orjson's canonical "
+                                       f"{'indented' if ind else 'compact'} form the model prints (first difference at byte {k}: "
+                                       f"real {b[k:k + 12]!r}, model {got[k:k + 12]!r}; real length {len(b)}, model {len(got)})",
+                                       False, file_hex=hx(b)[:1200], model_hex=hx(got)[:1200],
+                                       broken="theorems *_json speak about jprint; the file on disk is something else"))
+        if a2 == "ok " + tree_tokens(t):
+            stats["parser_equal"] += 1
+        else:
+            viols.append(violation(f"jcodec:model-mismatch:parser:{kind}", "jparse of a real file differs from its lexical tree",
+                                   False, file_hex=hx(b)[:1200], model=a2[:300]))
+    # (b) strict prefixes
+    reqs, meta = [], []
+    for di, (kind, ind, b, ps) in enumerate(docs):
+        if len(b) <= (500 if tier == "quick" else 3000):
+            cuts = list(range(len(b)))
+        else:
+            cuts = structural_cuts(b, r, 160 if tier == "quick" else 900)
+        for k in cuts:
+            reqs.append("jq " + hx(b[:k]))
+            meta.append((di, k))
+    answers = drv.batch(reqs)
+    for (di, k), a in zip(meta, answers):
+        kind, ind, b, ps = docs[di]
+        stats["prefixes"] += 1
+        stats["prefixes_model_none"] += (a == "none")
+        cov.case(f"jprefix|{di}|{k}", True, jprefix_kind=kind, jprefix_model=a.split(" ")[0])
+        if a != "none" and id(b) in printer_ok:
+            viols.append(violation("jcodec:model-prefix-parses", "the model parser accepts a strict prefix of a printed "
+                                   "document (theorem json_prefix_none contradicted?)", False, prefix_hex=hx(b[:k])[-300:]))
+        if kind == "pairing":
+            reset_dir(root, {"pairing.json": b[:k]})
+            loaded = load_pairings(ppath)
+            if loaded[0] == "ok" and loaded[1] == ps:
+                # the cut only removed trailing white space: complete data, harmless (the printer check reports the format)
+                stats["pairing_prefixes_loading_complete_data"] = stats.get("pairing_prefixes_loading_complete_data", 0) + 1
+            elif loaded[0] != "broken":
+                stats["pairing_prefixes_loaded_by_real_loader"] += 1
+                what = (f"loads {sorted(loaded[1])} (the complete file holds {sorted(ps)})" if loaded[0] == "ok"
+                        else f"raises {loaded[1]}")
+                key = "load_data:truncated-file-not-rejected:" + ("loads" if loaded[0] == "ok" else "other")
+                if key not in seen:
+                    seen.add(key)
+                    viols.append(violation(key, f"load_data on a pairing file truncated to {k} of {len(b)} bytes {what} "
+                                           f"instead of raising ConfigLoadingError (model: jparse = None -> Broken)", True,
+                                           prefix_len=k, file_len=len(b), pairings=ps, tail_of_prefix=b[max(0, k - 80):k].decode("utf-8", "replace")))
+    # (c) corruptions: model accepts => real accepts, same tree
+    creqs, cbytes = [], []
+    for di, (kind, ind, b, ps) in enumerate(docs):
+        if not b:
+            continue
+        for _ in range(12 if tier == "quick" else 60):
+            m = bytearray(b[: r.choice([len(b), min(len(b), 400)])]) if r.random() < 0.5 else bytearray(b)
+            for _ in range(r.choice([1, 1, 2])):
+                if not m:
+                    break
+                j = r.randrange(len(m))
+                x = r.random()
+                if x < 0.3:
+                    m[j:j] = r.choice([b" ", b"\n", b"\t ", b"\r\n"])          # white space is harmless where allowed
+                elif x < 0.5:
+                    m[j] = r.choice(b'{}[],:"\\ 0-e.')
+                elif x < 0.7:
+                    del m[j:j + r.randrange(1, 4)]
+                else:
+                    m[j] ^= 1 << r.randrange(8)
+            creqs.append("jq " + hx(bytes(m)))
+            cbytes.append(bytes(m))
+    for m, a in zip(cbytes, drv.batch(creqs)):
+        stats["corruptions"] += 1
+        try:
+            real = hkjson.loads(m.decode("utf-8"))
+            real_ok = True
+        except (UnicodeDecodeError, ValueError):
+            real_ok = False
+        cov.case("jcorrupt|" + hx(m)[:4000], True, jcorrupt_model=a.split(" ")[0], jcorrupt_real=real_ok)
+        if a != "none":
+            stats["model_accepts"] += 1
+            try:
+                t = lex(m)
+                same = (a == "ok " + tree_tokens(t))
+            except LexError:
+                same = False
+            if not same:
+                viols.append(violation("jcodec:model-mismatch:parser-corrupt", "model parser and reference lexer disagree",
+                                       False, content_hex=hx(m)[:800], model=a[:200]))
+            elif not real_ok and re_bad_u.search(m):
+                stats["u_escape_not_checked_by_lexical_model"] = stats.get("u_escape_not_checked_by_lexical_model", 0) + 1
+            elif not real_ok:
+                try:
+                    m.decode("utf-8")
+                    viols.append(violation("jcodec:model-accepts-real-rejects", "the model parser accepts a text that hkjson "
+                                           "rejects", False, content_hex=hx(m)[:800]))
+                except UnicodeDecodeError:
+                    pass          # byte level vs text level: invalid UTF-8 inside a string token
+        elif real_ok:
+            stats["real_more_lenient"] += 1
+    cov.extra["json_codec_stream"] = stats
+
+
+def unhx_safe(s):
+    try:
+        return b"" if s == "-" else bytes.fromhex(s)
+    except ValueError:
+        return b""
+
+
 # ---------------------------------------------------------------- stream: cache file crash points, prefixes, corruptions
 def cache_doc(r, n_pairings=1, small=True):
     out = {}
@@ -2075,11 +2298,17 @@ async def run_async(ctx):
         for name, fn in (("save", lambda: stream_save(ctx, drv, cov, viols, root, rng(seed, "c20save"))),
                          ("cache", lambda: stream_cache(ctx, drv, cov, viols, root, rng(seed, "c20cache"))),
                          ("cache_history", lambda: stream_cachehist(ctx, drv, cov, viols, root, rng(seed, "c20cachehist"))),
+                         ("json_codec", lambda: stream_jcodec(ctx, drv, cov, viols, root, rng(seed, "c20jcodec"))),
                          ("pairs", lambda: stream_pairs(ctx, drv, cov, viols, root, rng(seed, "c20pairs"))),
                          ("entry", lambda: stream_entry(ctx, drv, cov, viols, root, rng(seed, "c20entry"))),
                          ("emap", lambda: stream_emap(ctx, drv, cov, viols, rng(seed, "c20emap")))):
             t0 = time.time()
-            fn()
+            try:
+                fn()
+            except Exception:  # noqa - one stream failing must not hide what the others found
+                import traceback
+                viols.append(violation(f"harness-exception:{name}", f"stream {name} failed: " + traceback.format_exc()[-1200:],
+                                       False, stream=name))
             timings[name] = round(time.time() - t0, 1)
         if not ctx.get("replay"):
             t0 = time.time()
